@@ -232,6 +232,10 @@ theorem mem_transposeW {β} (w : Nat) (m : List (List β)) :
     · obtain ⟨r', hr', hx'⟩ := ih _ (List.getElem_mem _) x hx
       exact ⟨r', by simp [hr'], hx'⟩
 
+theorem zip_map_snd {A B C} (g : B → C) (l1 : List A) (l2 : List B) :
+    (l1.zip l2).map (fun p => (p.1, g p.2)) = l1.zip (l2.map g) := by
+  rw [List.zip_map_right]; rfl
+
 theorem foldl_setCol_map {γ δ} [DecidableEq ν] (ps : List (ν × γ)) (g : γ → δ)
     (hnd : (ps.map (·.1)).Nodup) :
     ps.foldl (fun df p => setCol df p.1 (g p.2)) [] = ps.map (fun p => (p.1, g p.2)) := by
@@ -275,7 +279,8 @@ theorem fromMIToNested_ok [DecidableEq ν] {n c t : Nat} {X : Arr3 α} (hX : Rec
   simp only [ne_eq, not_true_eq_false, if_false, pure, Except.pure]
   congr 2
   rw [rect_nCols hX hn, ← map_transposeW]
-  rw [← List.zip_map_right]
+  rw [zip_map_snd (fun col => ((List.range n).map (fun i : Nat => (i : Int))).map (fun id => mkCell k
+      (((((miRows X).map (·.1.1)).zip col).filter (fun q => q.1 == id)).map (·.2))))]
   congr 1
   rw [List.map_map]
   apply List.map_congr_left
@@ -291,9 +296,68 @@ theorem fromMIToNested_ok [DecidableEq ν] {n c t : Nat} {X : Arr3 α} (hX : Rec
       (fun x => List.replicate t x)).flatten Sj.flatten id)
     ((List.range n).map (fun i : Nat => (i : Int))) Sj (by simp [hSjlen])
     (pick_blocks t _ Sj (by simp [hSjlen]) hSjt (nodup_range_int n))
-  rw [← List.map_map (g := mkCell k) (f := fun id => pick _ Sj.flatten id)] at *
   conv => rhs; rw [← this]
-  rw [List.map_map]
+  simp only [List.map_map]
   rfl
 
+/-- a well-formed nested frame is the canonical frame of the panel it holds -/
+theorem wfNested_eq_nestedOf {n c t : Nat} {k : Bool} {N : Nested ν α} (h : WFNested n c t k N)
+    (hn : 0 < n) (hc : 0 < c) :
+    Rect3 n c t (panelOfNested N) ∧ N = nestedOf N.names k (panelOfNested N) := by
+  obtain ⟨hnd, hlen, hcols⟩ := h
+  have hnr : N.nRows = n := by
+    unfold Nested.nRows
+    cases hC : N.cols with
+    | nil => rw [hC] at hlen; simp at hlen; omega
+    | cons p rest => exact (hcols p (by rw [hC]; simp)).1
+  let M := N.cols.map (fun p => p.2.map (fun cell => (cell.vals?).getD []))
+  have hM : RowsLen n M := by
+    intro r hr
+    obtain ⟨p, hp, rfl⟩ := List.mem_map.mp hr
+    simpa using (hcols p hp).1
+  have hMlen : M.length = c := by simp [M, hlen]
+  have hrect : Rect3 n c t (panelOfNested N) := by
+    unfold panelOfNested
+    rw [hnr]
+    refine ⟨length_transposeW n M hM, ?_⟩
+    intro inst hinst
+    refine ⟨by rw [rowsLen_transposeW n M hM inst hinst, hMlen], ?_⟩
+    intro s hs
+    obtain ⟨r, hr, hsr⟩ := mem_transposeW n M inst hinst s hs
+    obtain ⟨p, hp, rfl⟩ := List.mem_map.mp hr
+    obtain ⟨cell, hcell, rfl⟩ := List.mem_map.mp hsr
+    obtain ⟨vs, rfl, hvs⟩ := (hcols p hp).2 cell hcell
+    simpa [vals_mkCell] using hvs
+  refine ⟨hrect, ?_⟩
+  have hn0 : (panelOfNested N).length = n := hrect.1
+  unfold nestedOf
+  have hcolsEq : transposeW (nCols (panelOfNested N))
+      ((panelOfNested N).map (List.map (mkCell k))) = N.cols.map (·.2) := by
+    rw [rect_nCols hrect hn]
+    unfold panelOfNested
+    rw [hnr, map_transposeW]
+    have hMc : M.map (List.map (mkCell k)) = N.cols.map (·.2) := by
+      simp only [M, List.map_map]
+      apply List.map_congr_left
+      intro p hp
+      simp only [Function.comp_apply]
+      conv => rhs; rw [← List.map_id p.2]
+      rw [List.map_map]
+      apply List.map_congr_left
+      intro cell hcell
+      obtain ⟨vs, rfl, _⟩ := (hcols p hp).2 cell hcell
+      simp [vals_mkCell]
+    rw [hMc]
+    have hR : RowsLen n (N.cols.map (·.2)) := by
+      intro r hr
+      obtain ⟨p, hp, rfl⟩ := List.mem_map.mp hr
+      exact (hcols p hp).1
+    have := transposeW_transposeW n (N.cols.map (·.2)) hR
+    rwa [List.length_map, hlen] at this
+  rw [hcolsEq]
+  cases N with
+  | mk cols =>
+    simp only [Nested.names]
+    congr 1
+    exact List.zip_of_prod rfl rfl
 end SkVerif.Panel.Lem
